@@ -13,7 +13,7 @@ EXPLANATION = (
     'consistency-service path carries the ordered-stream source id and every one built on the repair path carries the repair source id, '
     'the two constants differ and are below the number of sources (mixing the ordered and the unordered stream on one source makes a '
     'replica refuse operations it lacks, permanently); S2 every locally accepted client mutation is handed to the batch distributor on '
-    'every path after the local write, also when direct replication fails, with the matching mutation kind; S3 repair bookkeeping — the '
+    'every path after the local write, also when direct replication fails, with the matching mutation kind; S6 the GetState handler reads the change stamp of the keyspace before it takes the state snapshot; S3 repair bookkeeping — the '
     'peer\'s keyspace stamp is recorded only on the success edge of the exchange, the exchange reports Ok only after the removal task was '
     'joined successfully and the modification task reported done, and "done" is set only after every chunk was fetched and applied; '
     'S4 every actor handler that mutates the set also bumps the keyspace change stamp; S5 the two diff lists reach the right application '
@@ -258,9 +258,29 @@ def check_S4(ctx, facts):
     ctx.floor('C01.S4', 'set-mutating handlers', n, 4)
 
 
+def check_S6(ctx, facts):
+    """the change stamp a peer is handed together with a state snapshot is read BEFORE the snapshot is taken: the poller
+    records that stamp as 'synced up to here', so a write that lands between the two reads must be in the snapshot"""
+    hs = [b for b in facts.bodies.values() if b.crate == 'datacake_eventual_consistency' and b.kind == 'coroutine' and not b.d['promoted']
+          and 'Handler' in (b.impl or '') and 'GetState' in (b.impl or '') and b.name.endswith('on_message::{closure#0}')]
+    if len(hs) != 1:
+        ctx.bad('C01.S6', 'GetState|anchor', '', 'GetState handler not found (fail closed)')
+        return
+    b = hs[0]
+    sends = [(bb, t) for bb, t in b.calls() if cname(t) and cname(t).endswith('ActorMailbox::send')]
+    stamp = [bb for bb, t in sends if any('LastUpdated' in g for g in (t.get('gargs') or []))]
+    snap = [bb for bb, t in sends if any(g.endswith('::Serialize') or g == 'Serialize' for g in (t.get('gargs') or []))]
+    good = bool(stamp) and bool(snap) and all(any(b.dominates(s_, x) for s_ in stamp) for x in snap)
+    ctx.ob('C01.S6', 'GetState|stamp-before-snapshot', good, site(b),
+           'the keyspace\'s change stamp is read before the state snapshot is taken (the stamp a peer records as synced never exceeds the snapshot)' if good else
+           'the state snapshot is taken before (or without) reading the change stamp: a write that reaches the keyspace between the two reads is covered by the '
+           'stamp the peer records as synced but missing from the snapshot, so no later repair exchange fetches it')
+
+
 def check(ctx):
     facts = ctx.facts('prod')
     cg = CallGraph(facts)
+    check_S6(ctx, facts)
     check_S1(ctx, facts, cg)
     check_S2(ctx, facts)
     check_S2b(ctx, facts)
